@@ -973,7 +973,41 @@ def gen_object_sequences(ctx):
 # --------------------------------------------------------------------------
 # kind 0: resolution
 # --------------------------------------------------------------------------
-def resolve_case(world, d, eb, ec, em, ech, entry):
+SPELLINGS = ["absolute", "relative_to_cwd", "bare_name_in_cwd", "through_symlinked_folder", "symlinked_files",
+             "dotdot_components", "relative_dot_slash"]
+
+
+def spell(d, name, spelling):
+    """(path string as the caller spells it, cwd to run in or None) for file `name` of folder d."""
+    d = Path(d)
+    if spelling == "absolute":
+        return str(d / name), None
+    if spelling == "relative_to_cwd":
+        return str(Path(d.name) / name), d.parent
+    if spelling == "bare_name_in_cwd":
+        return name, d
+    if spelling == "relative_dot_slash":
+        return "./" + name, d
+    if spelling == "through_symlinked_folder":
+        link = d.parent / (d.name + "_link")
+        if not link.exists():
+            link.symlink_to(d, target_is_directory=True)
+        return str(link / name), None
+    if spelling == "symlinked_files":
+        ld = d.parent / (d.name + "_filelinks")
+        ld.mkdir(exist_ok=True)
+        for f in d.iterdir():
+            if f.is_file() and not (ld / f.name).exists():
+                (ld / f.name).symlink_to(f)
+        return str(ld / name), None
+    if spelling == "dotdot_components":
+        return str(d / ".." / d.name / name), None
+    raise ValueError(spelling)
+
+
+def resolve_case(world, d, eb, ec, em, ech, entry, spelling="absolute", as_str=False):
+    """Reader(<entry point, spelled in a given way>): which data file it settles on (compared with the expected
+    file by os.path.samefile, not by spelling), outcome class, shape and values against the recording."""
     spikeglx, _ = _imports()
     d = Path(d)
     d.mkdir(parents=True, exist_ok=True)
@@ -986,37 +1020,50 @@ def resolve_case(world, d, eb, ec, em, ech, entry):
         fp["ch"].write_bytes(world.hdr[1, 1].encode())
     if em:
         fp["meta"].write_text(world.meta[1])
-    path = fp[["bin", "cbin", "meta"][entry]]
+    target = fp[["bin", "cbin", "meta"][entry]]
+    pstr, cwd = spell(d, target.name, spelling)
+    arg = pstr if as_str else Path(pstr)
     kw = {} if em else dict(nc=world.nc, ns=world.ns, fs=FS)
     obs = {"problems": []}
+    old_cwd = os.getcwd()
     try:
-        sr = spikeglx.Reader(path, **kw)
-    except FileNotFoundError:
-        return dict(obs, file=-1, outcome=4)
-    except AttributeError:
-        return dict(obs, file=-1, outcome=5)
-    except Exception as e:
-        return dict(obs, file=-1, outcome=90, exc=repr(e))
-    fb = sr.file_bin
-    obs["file"] = 0 if fb is None else {".bin": 1, ".cbin": 2}.get(Path(fb).suffix, 9)
-    if fb is not None and Path(fb).with_suffix("") != path.with_suffix(""):
-        obs["problems"].append("resolved to a file of another recording: %s" % fb)
-    if not sr.is_open if fb is None else False:
-        pass
-    if fb is None:
-        obs["outcome"] = 3
-    else:
-        obs["outcome"] = 2 if sr.is_mtscomp else 1
+        if cwd is not None:
+            os.chdir(cwd)
         try:
-            ok = tuple(sr.shape) == (world.ns, world.nc) and np.array_equal(sr._raw[:], world.D[1]) and \
-                sr[:, :].shape == (world.ns, world.nc)
+            sr = spikeglx.Reader(arg, **kw)
+        except FileNotFoundError:
+            return dict(obs, file=-1, outcome=4)
+        except AttributeError:
+            return dict(obs, file=-1, outcome=5)
         except Exception as e:
-            ok = False
-            obs["problems"].append("opened but unreadable: %r" % (e,))
-        if not ok:
-            obs["problems"].append("opened through %s but shape/content differ from the recording" % path.suffix)
-        sr.close()
-    return obs
+            return dict(obs, file=-1, outcome=90, exc=repr(e))
+        fb = sr.file_bin
+        obs["file"] = 0 if fb is None else {".bin": 1, ".cbin": 2}.get(Path(fb).suffix, 9)
+        if fb is not None:
+            want = fp["bin"] if obs["file"] == 1 else fp["cbin"] if obs["file"] == 2 else None
+            try:
+                same = want is not None and os.path.samefile(str(fb), str(want))
+            except OSError:
+                same = False
+            if not same:
+                obs["problems"].append("Reader(%r) settled on %s, which is not a data file of this recording" % (pstr, fb))
+        if fb is None:
+            obs["outcome"] = 3
+        else:
+            obs["outcome"] = 2 if sr.is_mtscomp else 1
+            try:
+                ok = tuple(sr.shape) == (world.ns, world.nc) and np.array_equal(sr._raw[:], world.D[1]) and \
+                    np.array(sr[:, :]).shape == (world.ns, world.nc)
+            except Exception as e:
+                ok = False
+                obs["problems"].append("opened through %r but unreadable: %r" % (pstr, e))
+            if not ok:
+                obs["problems"].append("opened through %r but shape %s / content differ from the recording %s" % (
+                    pstr, tuple(sr.shape) if hasattr(sr, "shape") else None, (world.ns, world.nc)))
+            sr.close()
+        return obs
+    finally:
+        os.chdir(old_cwd)
 
 
 def model_file_code(obs):
@@ -1193,28 +1240,38 @@ def _exercise(ctx, root):
             for bits in range(16):
                 eb, ec, em, ech = bits & 1, (bits >> 1) & 1, (bits >> 2) & 1, (bits >> 3) & 1
                 for entry in range(3):
-                    d = wd / ("res%d_%d" % (bits, entry))
-                    desc = {"kind": "resolve", "world": wdesc, "bin": eb, "cbin": ec, "meta": em, "ch": ech,
-                            "entry": [".bin", ".cbin", ".meta"][entry]}
-                    obs = guarded(ctx, "Reader(%s) could not be observed" % desc["entry"], desc, {"kind": "resolve_exception"},
-                                  lambda: resolve_case(world, d, eb, ec, em, ech, entry))
-                    shutil.rmtree(d, ignore_errors=True)
-                    if obs is None:
-                        continue
                     in_domain = em and [eb, ec, em][entry] and (eb or (ec and ech)) and \
                         not (entry == 1 and not ech)
-                    if in_domain and obs["outcome"] not in (1, 2):
-                        ctx.fail("Reader(%s) did not open the recording (outcome %s)" % (desc["entry"], obs["outcome"]),
-                                 desc, {"kind": "resolve"})
-                    for p in obs["problems"]:
-                        ctx.fail(p, desc, {"kind": "resolve"})
-                    inputs.append([0, eb, ec, em, ech, entry])
-                    outputs.append([max(obs["file"], 0) if obs["outcome"] in (1, 2, 3) else
-                                    _model_file(eb, ec, entry), obs["outcome"]])
-                    descr.append(desc)
-                    dist["resolve"] += 1
-                    if in_domain:
-                        nontrivial.add(("resolve", bits, entry))
+                    k0 = (bits * 3 + entry + w) % len(SPELLINGS)
+                    # in-domain cases: every spelling of the path; others: one spelling, rotating
+                    for sp in (SPELLINGS if (in_domain or ctx.thorough()) else [SPELLINGS[k0]]):
+                        as_str = (bits + entry + SPELLINGS.index(sp)) % 2 == 0
+                        d = wd / ("res%d_%d_%s" % (bits, entry, sp))
+                        desc = {"kind": "resolve", "world": wdesc, "bin": eb, "cbin": ec, "meta": em, "ch": ech,
+                                "entry": [".bin", ".cbin", ".meta"][entry], "spelling": sp, "str_path": as_str}
+                        obs = guarded(ctx, "Reader(%s) could not be observed" % desc["entry"], desc,
+                                      {"kind": "resolve_exception"},
+                                      lambda: resolve_case(world, d, eb, ec, em, ech, entry, sp, as_str))
+                        for extra in (d, wd / (d.name + "_link"), wd / (d.name + "_filelinks")):
+                            if extra.is_symlink():
+                                extra.unlink()
+                            else:
+                                shutil.rmtree(extra, ignore_errors=True)
+                        if obs is None:
+                            continue
+                        if in_domain and obs["outcome"] not in (1, 2):
+                            ctx.fail("Reader(%s, %s) did not open the recording (outcome %s)" % (
+                                desc["entry"], sp, obs["outcome"]), desc, {"kind": "resolve"})
+                        for p in obs["problems"]:
+                            ctx.fail(p, desc, {"kind": "resolve"})
+                        inputs.append([0, eb, ec, em, ech, entry])
+                        outputs.append([max(obs["file"], 0) if obs["outcome"] in (1, 2, 3) else
+                                        _model_file(eb, ec, entry), obs["outcome"]])
+                        descr.append(desc)
+                        dist["resolve"] += 1
+                        dist["resolve_" + sp] = dist.get("resolve_" + sp, 0) + 1
+                        if in_domain:
+                            nontrivial.add(("resolve", bits, entry, sp))
             # ---------------------------------------------------- procedures with faults
             scs = gen_scenarios(ctx, world)
             if not ctx.thorough():
@@ -1316,7 +1373,9 @@ def _finish(ctx, inputs, dist, nontrivial, samples):
         ctx, TRUSTED,
         rule="(a) codec: random int16 matrices (full range, extremes, alternating +-32768, constant, ramp, small) with "
              "1..385 channels, sample counts around multiples of tiny chunk sizes, real compress_file + decompress_file; "
-             "(b) resolution: all 16 existence patterns of {bin,cbin,meta,ch} x 3 entry paths per world; (c) procedures: "
+             "(b) resolution: all 16 existence patterns of {bin,cbin,meta,ch} x 3 entry paths per world, the path spelled "
+             "absolutely / relative to a changed cwd / as a bare name / through a symlinked folder / through symlinked "
+             "files / with .. components / with ./, str and Path (every spelling for the in-domain cases); (c) procedures: "
              "compress_file / decompress_file / decompress_to_scratch on directories with and without stale files, "
              "fault-free and with a fault injected at each instrumented call. Each case runs the real code and the Coq "
              "model. Non-trivial = codec case with more than one chunk, in-domain resolution case, or procedure run "
@@ -1381,7 +1440,8 @@ def replay(ctx, data):
                 world.stem = world_stem
             if inp["kind"] == "resolve":
                 e = [".bin", ".cbin", ".meta"].index(inp["entry"])
-                obs = resolve_case(world, root / "r", inp["bin"], inp["cbin"], inp["meta"], inp["ch"], e)
+                obs = resolve_case(world, root / "r", inp["bin"], inp["cbin"], inp["meta"], inp["ch"], e,
+                                   inp.get("spelling", "absolute"), inp.get("str_path", False))
                 print("implementation:", obs)
                 out = [max(obs["file"], 0) if obs["outcome"] in (1, 2, 3) else _model_file(inp["bin"], inp["cbin"], e),
                        obs["outcome"]]
